@@ -83,9 +83,15 @@ static struct reb_treecell *reb_tree_add_particle_to_cell(struct reb_simulation*
 		struct reb_particle p = particles[pt];
 		if (parent == NULL){ // The new node is a root
 			node->w = r->root_size;
-			int i = ((int)floor((p.x + r->boxsize.x/2.)/r->root_size))%r->N_root_x;
-			int j = ((int)floor((p.y + r->boxsize.y/2.)/r->root_size))%r->N_root_y;
-			int k = ((int)floor((p.z + r->boxsize.z/2.)/r->root_size))%r->N_root_z;
+			int i = (int)floor((p.x + r->boxsize.x/2.)/r->root_size);
+			int j = (int)floor((p.y + r->boxsize.y/2.)/r->root_size);
+			int k = (int)floor((p.z + r->boxsize.z/2.)/r->root_size);
+			if (i==r->N_root_x) i = r->N_root_x-1; // upper box border: last root box
+			if (j==r->N_root_y) j = r->N_root_y-1;
+			if (k==r->N_root_z) k = r->N_root_z-1;
+			i %= r->N_root_x;
+			j %= r->N_root_y;
+			k %= r->N_root_z;
 			node->x = -r->boxsize.x/2.+r->root_size*(0.5+(double)i);
 			node->y = -r->boxsize.y/2.+r->root_size*(0.5+(double)j);
 			node->z = -r->boxsize.z/2.+r->root_size*(0.5+(double)k);
